@@ -22,6 +22,7 @@ type HarnessSpec struct {
 	Reach        []string `json:"reach"`      // labels that must be reached (vacuity guard)
 	Bounds       string   `json:"bounds"`
 	ThoroughOnly bool     `json:"thorough_only"`
+	Solver       string   `json:"solver"` // "" = z3; "cvc5int" = cvc5 --solve-bv-as-int=sum; "z3new"
 }
 
 type Group struct {
